@@ -370,15 +370,34 @@ def check_clock_actor(ctx, facts, rule):
         ev = facts.adts.get(ev_name)
         if ev is None or ev['kind'] != 'enum':
             raise Unmodelled('event type %s is not an enum of the workspace' % ev_name)
-        get_v = [i for i, v in enumerate(ev['variants']) if len(v['fields']) == 1 and ty_head(v['fields'][0]['ty']) == 'tokio::sync::oneshot::Sender']
-        reg_v = [i for i, v in enumerate(ev['variants']) if len(v['fields']) == 1 and v['fields'][0]['ty'].endswith('HLCTimestamp')]
+        def wraps(ty, what, depth=0):
+            """a value builder for a field of type `ty` that is `what` (a reply sender / a stamp) or a private wrapper around exactly one"""
+            if what == 'otx' and ty_head(ty) == 'tokio::sync::oneshot::Sender':
+                return lambda x: ('otx', x)
+            if what == 'ts' and ty.endswith('HLCTimestamp'):
+                return lambda x: ('ts', x)
+            a_ = facts.adts.get(ty_head(ty))
+            if a_ is not None and a_['kind'] == 'struct' and depth < 2 and a_['def'].startswith('datacake_node'):
+                fs_ = a_['variants'][0]['fields']
+                inner = [(j, wraps(f_['ty'], what, depth + 1)) for j, f_ in enumerate(fs_)]
+                hit = [(j, w_) for j, w_ in inner if w_ is not None]
+                if len(hit) == 1:
+                    j0, w0 = hit[0]
+                    return lambda x, a_=a_, fs_=fs_, j0=j0, w0=w0: ('adt', strip_generics_(a_['def']), 0,
+                                                                    [Cell(w0(x) if j == j0 else ('opaque', 'field')) for j in range(len(fs_))])
+            return None
+        from facts import strip_generics as strip_generics_
+        get_v = [(i, wraps(v['fields'][0]['ty'], 'otx')) for i, v in enumerate(ev['variants']) if len(v['fields']) == 1]
+        get_v = [(i, w_) for i, w_ in get_v if w_ is not None]
+        reg_v = [(i, wraps(v['fields'][0]['ty'], 'ts')) for i, v in enumerate(ev['variants']) if len(v['fields']) == 1]
+        reg_v = [(i, w_) for i, w_ in reg_v if w_ is not None]
         if len(get_v) != 1 or len(reg_v) != 1:
             raise Unmodelled('request / register variants of %s not identified' % ev_name)
 
         def event(kind, x):
             if kind == 'get':
-                return ('adt', ev_name, get_v[0], [Cell(('otx', x))])
-            return ('adt', ev_name, reg_v[0], [Cell(('ts', x))])
+                return ('adt', ev_name, get_v[0][0], [Cell(get_v[0][1](x))])
+            return ('adt', ev_name, reg_v[0][0], [Cell(reg_v[0][1](x))])
         results = []
 
         def run(choices):
